@@ -121,6 +121,8 @@ NumLike(v) == v.t \in {"int", "bool"}
 AsInt(v) == IF v.t = "bool" THEN VInt(IF v.v THEN 1 ELSE 0) ELSE v
 RECURSIVE BinOp(_,_,_,_)
 BinOp(op, a, b, st) ==
+  \* raw literals (floats, uints, chars) and the operators the fragment does not model are outside the reference
+  IF a.t = "raw" \/ b.t = "raw" \/ op \notin {"+", "-", "*", "/", "==", "!=", "<", ">"} THEN [ok |-> FALSE, v |-> VErr("unmodelled-op", op)] ELSE
   CASE NumLike(a) /\ NumLike(b) /\ "bool" \in {a.t, b.t} /\ (op \in {"+", "-", "*", "/", "<", ">"} \/ (op \in {"==", "!="} /\ a.t # b.t)) ->
          BinOp(op, AsInt(a), AsInt(b), st)
     [] op = "==" -> [ok |-> TRUE, v |-> VBool(VEq(a, b, st))]
